@@ -37,8 +37,8 @@ func WriteTTF(tables []Table) []byte {
 		binary.BigEndian.PutUint32(slice[8:], tableOffset)
 		binary.BigEndian.PutUint32(slice[12:], tableLength)
 
-		// update the offset
-		tableOffset = tableOffset + tableLength
+		// update the offset: the tables start on a 4 bytes boundary
+		tableOffset = alignTable(tableOffset + tableLength)
 	}
 
 	// append the actual table content :
@@ -46,12 +46,16 @@ func WriteTTF(tables []Table) []byte {
 	buffer = append(buffer, make([]byte, tableOffset-introLength)...)
 	tableOffset = introLength
 	for _, table := range tables {
-		copy(buffer[tableOffset:], table.Content)
-		tableOffset = tableOffset + uint32(len(table.Content))
+		copy(buffer[tableOffset:], table.Content) // the padding is already zero
+		tableOffset = alignTable(tableOffset + uint32(len(table.Content)))
 	}
 
 	return buffer
 }
+
+// alignTable rounds an offset up to a multiple of 4:
+// "all tables must begin on four-byte boundaries, and any remaining space between tables must be padded with zeros"
+func alignTable(offset uint32) uint32 { return (offset + 3) &^ 3 }
 
 // out is assumed to have a length >= ttfHeaderSize
 func writeTTFHeader(nTables int, out []byte) {
